@@ -485,40 +485,91 @@ impl Check for CtrlCheck {
         let cfg = Cfg::from_json(&replay["cfg"])?;
         let hist = history_parse(replay["history"].as_str().ok_or("history missing")?)?;
         let ty = replay.get("sample_type").and_then(|x| x.as_str()).unwrap_or("f64");
+        let sig = replay.get("signature").and_then(|x| x.as_str()).unwrap_or("");
         let spec = spec_for(self.id, Tier::Quick, &cfg);
         let mut log = String::new();
         let mut bad = false;
-        macro_rules! go {
-            ($t:ty) => {{
-                let mut t = Tracked::<$t>::new(&cfg, spec.signal, spec.props)?;
-                for (i, op) in hist.iter().enumerate() {
-                    let (obs, viols) = t.step(*op, true);
-                    log.push_str(&format!(
-                        "  step {:3} {:14} -> {:28} next(in,out)=({},{}) max=({},{})\n",
-                        i, op.text(), obs.res.text(), obs.after.in_next, obs.after.out_next, obs.after.in_max, obs.after.out_max
-                    ));
-                    if std::env::var("HX_VERBOSE").is_ok() {
-                        for (c, ch) in obs.out.iter().enumerate() {
-                            log.push_str(&format!("      out[{}] = {:?}\n", c, ch.iter().map(|x| x - crate::run::INDEX_BASE).collect::<Vec<_>>()));
-                        }
-                        log.push_str(&format!("      win={:?} probe={:?}\n", obs.win, obs.probe));
-                    }
-                    for v in viols {
-                        if v.prop == self.id {
-                            bad = true;
-                            log.push_str(&format!("    VIOLATES {} [{}] {}\n", v.prop, v.sig, v.detail));
-                        }
-                    }
-                    if t.run.dead {
+        let make = || -> Result<Box<dyn crate::explore::Sys>, String> {
+            Ok(if self.id == "C17" {
+                Box::new(crate::twin::TwinSys::new(&cfg)?)
+            } else if ty == "f32" {
+                Box::new(Tracked::<f32>::new(&cfg, spec.signal, spec.props)?)
+            } else {
+                Box::new(Tracked::<f64>::new(&cfg, spec.signal, spec.props)?)
+            })
+        };
+        // 1. step monitors along the history
+        let mut t = make()?;
+        for (i, op) in hist.iter().enumerate() {
+            let (obs, viols) = t.step(*op, true);
+            log.push_str(&format!(
+                "  step {:3} {:14} -> {:28} next(in,out)=({},{}) max=({},{})\n",
+                i, op.text(), obs.res.text(), obs.after.in_next, obs.after.out_next, obs.after.in_max, obs.after.out_max
+            ));
+            if std::env::var("HX_VERBOSE").is_ok() {
+                for (c, ch) in obs.out.iter().enumerate() {
+                    log.push_str(&format!("      out[{}] = {:?}\n", c, ch.iter().map(|x| x - crate::run::INDEX_BASE).collect::<Vec<_>>()));
+                }
+                log.push_str(&format!("      win={:?} probe={:?}\n", obs.win, obs.probe));
+            }
+            for v in viols {
+                if v.prop == self.id {
+                    bad = true;
+                    log.push_str(&format!("    VIOLATES {} [{}] {}\n", v.prop, v.sig, v.detail));
+                }
+            }
+            if t.dead() {
+                break;
+            }
+        }
+        // 2. violations that are found by comparing continuations
+        let trace = |s: &mut Box<dyn crate::explore::Sys>, ops: &[Op]| -> Vec<(String, Vec<Vec<u64>>, crate::any::Getters)> {
+            let mut out = Vec::new();
+            for op in ops {
+                let (o, _) = s.step(*op, false);
+                let r = match &o.res {
+                    crate::run::Res::Panic(m) => format!("PANIC({})", crate::run::classify(m)),
+                    other => other.text(),
+                };
+                out.push((r, o.out.iter().map(|c| c.iter().map(|x| x.to_bits()).collect()).collect(), o.after));
+                if s.dead() {
+                    break;
+                }
+            }
+            out
+        };
+        if self.id == "C13" && sig == "rejected-call-changes-later-behaviour" && !hist.is_empty() {
+            let (prefix, _) = hist.split_at(hist.len() - 1);
+            let mut a = make()?;
+            let mut b = make()?;
+            if a.replay(&hist) && b.replay(prefix) {
+                let (ta, tb) = (trace(&mut a, &[Op::P, Op::P]), trace(&mut b, &[Op::P, Op::P]));
+                let same = ta.len() == tb.len() && ta.iter().zip(tb.iter()).all(|(x, y)| x.0 == y.0 && x.1 == y.1);
+                if !same {
+                    bad = true;
+                    log.push_str("    VIOLATES C13 [rejected-call-changes-later-behaviour] the two calls after the rejected call differ from a twin that never saw it\n");
+                }
+            }
+        }
+        if self.id == "C10" && sig == "reset-continuation-differs" {
+            if let Some(z) = hist.iter().rposition(|o| *o == Op::Z) {
+                let (before, cont) = (&hist[..=z], &hist[z + 1..]);
+                let mut a = crate::run::Runner::<f64>::new(&cfg, Signal::Noise)?;
+                let mut f = crate::run::Runner::<f64>::new(&cfg, Signal::Noise)?;
+                a.replay(before);
+                a.keep_out = true;
+                f.keep_out = true;
+                for op in cont {
+                    let (oa, of) = (a.apply(*op), f.apply(*op));
+                    let same = oa.res.text() == of.res.text() && oa.after == of.after
+                        && oa.out.iter().zip(of.out.iter()).all(|(x, y)| x.len() == y.len() && x.iter().zip(y.iter()).all(|(p, q)| p.to_bits() == q.to_bits()));
+                    if !same {
+                        bad = true;
+                        log.push_str(&format!("    VIOLATES C10 [reset-continuation-differs] continuation step {} differs from a freshly constructed resampler\n", op.text()));
                         break;
                     }
                 }
-            }};
-        }
-        if ty == "f32" {
-            go!(f32)
-        } else {
-            go!(f64)
+            }
         }
         Ok((bad, log))
     }
